@@ -23,8 +23,27 @@ fn write_within<T: WriteSource>(
     node.write(opt)
 }
 
+/// Verification hook state (never compiled in normal builds): the number of times
+/// `<pr::Expr as WriteSource>::write` was entered since the last reset (`verif:fmt-calls`).
+#[cfg(prqlc_verif)]
+pub(crate) mod verif_fmt_calls {
+    thread_local! {
+        pub static EXPR_WRITES: std::cell::Cell<u64> = const { std::cell::Cell::new(0) };
+    }
+    pub fn reset() {
+        EXPR_WRITES.with(|c| c.set(0));
+    }
+    pub fn get() -> u64 {
+        EXPR_WRITES.with(|c| c.get())
+    }
+}
+
 impl WriteSource for pr::Expr {
     fn write(&self, mut opt: WriteOpt) -> Option<String> {
+        // verification hook: count the invocations of the expression writer
+        #[cfg(prqlc_verif)]
+        verif_fmt_calls::EXPR_WRITES.with(|c| c.set(c.get() + 1));
+
         let mut r = String::new();
 
         if self.alias.is_some() && opt.context_strength > 10 {
